@@ -175,10 +175,19 @@ fn pair_oracle(c: &PairCase, rec: &Rec, ctx: &Ctx) -> Result<(), String> {
         if !crosses_cut && !((e2 - e_ab).abs() <= tol) {
             return Err(format!("E(Ta,Tb) = {} but E(a,b) = {} for the common motion {:?} (r = {} -> {})", e2, e_ab, c.motion, r_real, r2));
         }
+        // the other operator form (transform on the left) must move the particle identically and keep its parameters
         let t2: Transform2 = t;
         let ta2 = t2 * a.clone();
-        if ta2.position != ta.position {
+        let tb2 = &t2 * &b;
+        if ta2.position != ta.position || tb2.position != tb.position {
             return Err("Transform2 * LJ2 and LJ2 * Transform2 place the particle differently".to_string());
+        }
+        if ta2.sigma != a.sigma || ta2.epsilon != a.epsilon || ta2.cutoff != a.cutoff || tb2.sigma != b.sigma || tb2.epsilon != b.epsilon || tb2.cutoff != b.cutoff {
+            return Err(format!("Transform2 * LJ2 changed sigma, epsilon or cutoff of the particle ({:?} -> {:?})", (a.sigma, a.epsilon, a.cutoff), (ta2.sigma, ta2.epsilon, ta2.cutoff)));
+        }
+        let e3 = ta2.energy(&tb2);
+        if !crosses_cut && !((e3 - e_ab).abs() <= tol) {
+            return Err(format!("E(T a, T b) = {} (transform applied on the left) but E(a,b) = {} for the common motion {:?}", e3, e_ab, c.motion));
         }
     }
     let nt = near_cut || unlike;
